@@ -217,7 +217,12 @@ def _history(w, h, res, inject_at, out):
             for pid in sorted(members):
                 inspected += 1
                 stt = k.procs[pid].state
-                if stt == 'running':
+                if stt == 'running' and h.get('overlap') and k.procs[pid].death_at is not None \
+                        and k.procs[pid].cause == 'circus:9' and pid not in watchers[n].processes:
+                    # sent SIGKILL and dropped by the overlapped operation an instant ago, inside the kernel's kill
+                    # latency: as good as dead (the rule applied to off-the-books workers above)
+                    res.obs['sigkilled_by_the_overlapped_operation_inside_the_kill_latency(tolerated)'] += 1
+                elif stt == 'running':
                     bad.append(('survivor', n, pid))
                 elif stt == 'zombie' and h.get('overlap') and pid not in watchers[n].processes \
                         and any(s_ == 9 and snd == 'circus' for (_t, s_, snd) in k.procs[pid].signals):
